@@ -194,7 +194,7 @@ def run(ctx):
     ]
     for name, (mod, cfg, _k) in gens.items():
         jobs.append(lambda name=name, mod=mod, cfg=cfg: ctx.tlc_generate(mod, cfg=cfg, outfile=os.path.join(w, "beh-%s.ndjson" % name),
-                                                                            workers=4, timeout=2400, jvm="-Xmx8g"))
+                                                                            workers=4 if th else 2, timeout=2400, jvm="-Xmx8g"))
     res = parallel_tlc(ctx, jobs)
     nbeh = {}
     for name, r in zip(gens.keys(), res[3:]):
@@ -204,13 +204,13 @@ def run(ctx):
 
     # --- B2: replay the generated histories on every subject (one child process per subject), and
     # --- B1: seeded random histories + the systematic wrap/grow scenarios; all harness stages at once
-    sample = 3000 if th else 300
+    sample = 3000 if th else 500
 
     def do_replay(name):
         kind = gens[name][2]
         return ctx.harness(BIN, "replay", "b2-" + name, timeout=3000,
                            extra={"kind": kind, "in": os.path.join(w, "beh-%s.ndjson" % name), "sample": sample, "threads": 4,
-                                  "per_key": 4 if th else 3, "max_mismatch": 120 if th else 45})
+                                  "per_key": 4 if th else 2, "max_mismatch": 120 if th else 30})
 
     with cf.ThreadPoolExecutor(max_workers=6) as ex:
         fb1 = ex.submit(lambda: ctx.harness(BIN, "drive", "b1", timeout=3000))
@@ -351,11 +351,13 @@ def run(ctx):
         "elements and compared for equality; a seeded sample and, for every distinct kind of difference (set of (operation, what differed)), up to "
         "%s differing histories per subject are judged by TLC (Trace_Seq/Trace_Deque).  B1: seeded random histories per subject (vectors up to 40 "
         "elements so that every reallocation and the 64-byte SIMD paths are crossed; queues with clone/bulk/reserve) and, for AutoGrowCircularQueue, "
-        "growth forced by push_back/push_bulk/reserve/clone at every head offset and two fill levels; every B1 event is validated by TLC.  "
+        "growth forced by push_back/push_bulk/reserve/clone at every head offset of the ring (fill level capacity-1 / capacity-2: both in thorough, "
+        "alternating in quick; quick runs these scenarios for the initial capacities that are not rounded up: 1, 2, 4 (new and cap_4), 8); every B1 event is "
+        "validated by TLC.  "
         "distinct_nontrivial = (subject, history) pairs executed in which at least one step changes the expected content (histories that only pop/clear "
         "an empty container are executed but not counted) + (subject, B1 run) pairs in which the container held an element at some point; pairs are "
         "distinct by construction (each history is generated once, each run has its own derived seed).  "
-        "exhaustive refers to the B2 history spaces." % (("4", "5", "7", "10", "4") if th else ("3", "4", "5", "8", "3")))
+        "exhaustive refers to the B2 history spaces." % (("4", "5", "7", "10", "4") if th else ("3", "4", "5", "8", "2")))
     for f in (fv, fq, fs):
         if os.path.exists(f):
             ctx.sample_from_trace(f, 6)
